@@ -1,3 +1,870 @@
 package main
 
-func runCheck(args []string) int { return 2 }
+// Check driver: work items -> parallel symbolic exploration -> known-finding attribution
+// (deviant oracle) -> native replay -> evidence + VIOLATION / KNOWN-FINDING lines.
+
+import (
+	"encoding/json"
+	"fmt"
+	"math/big"
+	"os"
+	"os/exec"
+	"path/filepath"
+	"regexp"
+	"sort"
+	"strconv"
+	"strings"
+	"sync"
+	"time"
+
+	"golang.org/x/tools/go/ssa"
+)
+
+type Item struct {
+	P map[string]int64
+	S map[string]string
+}
+
+func (it Item) String() string {
+	var parts []string
+	for k, v := range it.S {
+		parts = append(parts, k+"="+v)
+	}
+	for k, v := range it.P {
+		parts = append(parts, k+"="+strconv.FormatInt(v, 10))
+	}
+	sort.Strings(parts)
+	return strings.Join(parts, " ")
+}
+
+type Harness struct {
+	Name  string // C06_slice
+	Pkg   string // relative import path inside qeep's module, e.g. "zzh"
+	Func  string // H_C06_slice
+	Items func(tier string) []Item
+	Reach []string // labels that must each be reached by at least one path
+	BV    bool     // integers as 64-bit bit-vectors (wrap-around), else mathematical Int
+	What  string   // one line for evidence
+}
+
+type Check struct {
+	ID          string
+	Level       string
+	Harnesses   []Harness
+	Assumptions []string
+	Outside     string
+	Explanation string
+}
+
+type task struct {
+	h     int
+	item  int
+	trail []int
+}
+
+type violRec struct {
+	H      int
+	Item   int
+	V      Violation
+	Reach  []string
+	Notes  []string
+	Decs   []string
+	Status string // confirmed | known:<key> | unconfirmed
+	Replay string
+}
+
+type hStats struct {
+	Paths, Aborted, Obl, Dis, Syn int
+	Steps                         int64
+	Reach                         map[string]int
+	Undis                         []string
+	Samples                       []map[string]interface{}
+	Items                         int
+	valModels                     []valModel
+}
+
+type valModel struct {
+	item  int
+	model map[string]ModelVal
+	reach []string
+	trail []int
+}
+
+type runner struct {
+	P       *Program
+	chk     *Check
+	tier    string
+	seed    int64
+	items   [][]Item
+	fns     []*ssa.Function
+	mu      sync.Mutex
+	queue   []task
+	out     int // outstanding tasks (queued + running)
+	cond    *sync.Cond
+	stats   []*hStats
+	viols   []violRec
+	known   []string // known-finding keys listed for this property
+	matched map[string]int
+	matchedSample map[string]string
+	unmatched int
+	stop    bool
+	sstats  SolverStats
+	fnSeen  map[string]bool
+	ranges  map[string][2]int64
+	axioms  int
+	deadline time.Time
+	timedOut bool
+	workers int
+	timeoutMs int
+}
+
+func verifDir() string { return envOr("QSYM_VERIF", "/verif") }
+
+func runCheck(args []string) int {
+	if len(args) >= 3 && args[1] == "--replay" {
+		return replayCmd(args[0], args[2])
+	}
+	if len(args) < 2 {
+		fmt.Fprintln(os.Stderr, "usage: qsym check <id> quick|thorough")
+		return 2
+	}
+	id, tier := args[0], args[1]
+	if t := os.Getenv("VERIF_TIER"); t == "quick" || t == "thorough" {
+		tier = t
+	}
+	chk := findCheck(id)
+	if chk == nil {
+		fmt.Fprintln(os.Stderr, "unknown check", id)
+		return 2
+	}
+	seed, _ := strconv.ParseInt(envOr("VERIF_SEED", "1"), 10, 64)
+	t0 := time.Now()
+	repo := envOr("QSYM_REPO", "/repo")
+	P, err := LoadProgram(repo, filepath.Join(verifDir(), "harness"))
+	if err != nil {
+		fmt.Fprintln(os.Stderr, "load:", err)
+		return 2
+	}
+	r := &runner{P: P, chk: chk, tier: tier, seed: seed, matched: map[string]int{}, matchedSample: map[string]string{},
+		fnSeen: map[string]bool{}, ranges: map[string][2]int64{}}
+	r.cond = sync.NewCond(&r.mu)
+	r.workers, _ = strconv.Atoi(envOr("QSYM_WORKERS", "16"))
+	r.timeoutMs = 10000
+	budget := 15 * time.Minute
+	if tier == "thorough" {
+		r.timeoutMs = 60000
+		budget = 90 * time.Minute
+	}
+	if b := os.Getenv("QSYM_BUDGET_S"); b != "" {
+		n, _ := strconv.Atoi(b)
+		budget = time.Duration(n) * time.Second
+	}
+	r.deadline = t0.Add(budget)
+	r.known = knownKeys(id)
+	only := os.Getenv("QSYM_ONLY")
+	for hi, h := range chk.Harnesses {
+		fn := P.Func(qeepMod+"/"+h.Pkg, h.Func)
+		if fn == nil {
+			fmt.Fprintf(os.Stderr, "harness function %s.%s not found\n", h.Pkg, h.Func)
+			return 2
+		}
+		r.fns = append(r.fns, fn)
+		its := h.Items(tier)
+		if only != "" && !strings.Contains(h.Name, only) {
+			its = nil
+		}
+		r.items = append(r.items, its)
+		r.stats = append(r.stats, &hStats{Reach: map[string]int{}, Items: len(its)})
+		for ii := range its {
+			r.queue = append(r.queue, task{h: hi, item: ii})
+		}
+	}
+	r.out = len(r.queue)
+	var wg sync.WaitGroup
+	for w := 0; w < r.workers; w++ {
+		wg.Add(1)
+		go func() {
+			defer wg.Done()
+			r.worker()
+		}()
+	}
+	wg.Wait()
+
+	// vacuity: every declared reach label must have been reached
+	var broken []string
+	for hi, h := range chk.Harnesses {
+		if len(r.items[hi]) == 0 {
+			continue
+		}
+		for _, l := range h.Reach {
+			if r.stats[hi].Reach[l] == 0 {
+				broken = append(broken, fmt.Sprintf("%s: label %q never reached (vacuous harness?)", h.Name, l))
+			}
+		}
+	}
+
+	// native: replay violations, validate sampled path models
+	nat := newNative(P, r)
+	defer nat.cleanup()
+	validated, mismatches := r.validate(nat)
+	nviol := r.confirm(nat)
+
+	wall := time.Since(t0).Seconds()
+	r.writeEvidence(wall, validated, mismatches, nviol, broken)
+
+	for k, n := range r.matched {
+		fmt.Printf("KNOWN-FINDING: property=%s key=%s %s (matched on %d paths, e.g. %s)\n", id, k, knownText(id, k), n, r.matchedSample[k])
+	}
+	for _, v := range r.viols {
+		if v.Status == "confirmed" {
+			fmt.Printf("VIOLATION property=%s replay=%s\n", id, v.Replay)
+			fmt.Printf("  harness=%s item={%s} %s %q %s at %s\n", chk.Harnesses[v.H].Name, r.items[v.H][v.Item], v.V.Kind, v.V.Label, v.V.Detail, v.V.Pos)
+		}
+	}
+	tot := hStats{}
+	und := 0
+	for _, s := range r.stats {
+		tot.Paths += s.Paths
+		tot.Obl += s.Obl
+		tot.Dis += s.Dis
+		und += len(s.Undis)
+	}
+	fmt.Printf("check %s %s: paths=%d obligations=%d discharged=%d undischarged=%d violations=%d known=%d unconfirmed=%d validated=%d mismatches=%d solver_queries=%d solver_s=%.1f wall=%.1fs\n",
+		id, tier, tot.Paths, tot.Obl, tot.Dis, und, nviol, len(r.matched), r.countStatus("unconfirmed"), validated, mismatches, r.sstats.Queries, r.sstats.Time.Seconds(), wall)
+	if len(broken) > 0 {
+		for _, b := range broken {
+			fmt.Println("BROKEN:", b)
+		}
+		return 2
+	}
+	if r.timedOut {
+		fmt.Println("INCOMPLETE: budget exhausted before the work list was empty; evidence states what completed")
+	}
+	if nviol > 0 {
+		return 1
+	}
+	return 0
+}
+
+func (r *runner) countStatus(s string) int {
+	n := 0
+	for _, v := range r.viols {
+		if v.Status == s {
+			n++
+		}
+	}
+	return n
+}
+
+func (r *runner) worker() {
+	sol := NewSolver("z3", r.timeoutMs)
+	defer sol.Close()
+	ex := NewExec(r.P.prog, sol)
+	var local []task
+	for {
+		var t task
+		if len(local) > 0 {
+			t = local[len(local)-1]
+			local = local[:len(local)-1]
+		} else {
+			r.mu.Lock()
+			for len(r.queue) == 0 && r.out > 0 && !r.stop {
+				r.cond.Wait()
+			}
+			if r.out == 0 || r.stop {
+				r.mu.Unlock()
+				break
+			}
+			t = r.queue[len(r.queue)-1]
+			r.queue = r.queue[:len(r.queue)-1]
+			r.mu.Unlock()
+		}
+		if time.Now().After(r.deadline) {
+			r.mu.Lock()
+			r.timedOut = true
+			r.stop = true
+			r.cond.Broadcast()
+			r.mu.Unlock()
+			break
+		}
+		h := r.chk.Harnesses[t.h]
+		it := r.items[t.h][t.item]
+		ex.params, ex.sparams = it.P, it.S
+		ex.known = map[string]bool{}
+		ex.bvInts = h.BV
+		res, nt := ex.RunPath(r.fns[t.h], t.trail)
+		var vrecs []violRec
+		for _, v := range res.Violations {
+			vr := violRec{H: t.h, Item: t.item, V: v, Reach: res.Reached, Notes: res.Notes, Decs: res.Decisions}
+			// known-finding attribution: re-decide the same path against the deviant oracle
+			for _, key := range r.known {
+				ex.known = map[string]bool{key: true}
+				res2, _ := ex.RunPath(r.fns[t.h], res.Trail)
+				ex.known = map[string]bool{}
+				if len(res2.Violations) == 0 && res2.Aborted == "" && len(res2.Undischarged) == 0 {
+					vr.Status = "known:" + key
+					break
+				}
+			}
+			vrecs = append(vrecs, vr)
+		}
+		// sample a model of a clean path for native validation
+		var vm *valModel
+		if len(res.Violations) == 0 && res.Aborted == "" {
+			st := r.stats[t.h]
+			r.mu.Lock()
+			need := len(st.valModels) < 6 || (st.Paths%97 == int(r.seed%97) && len(st.valModels) < 24)
+			r.mu.Unlock()
+			if need {
+				// re-run to restore solver state is unnecessary: the path's PC is still asserted
+				if m := ex.niceModel(ex.b.True, nil); m != nil {
+					vm = &valModel{item: t.item, model: m, reach: res.Reached, trail: res.Trail}
+				} else if rr, m := ex.sol.Check(nil, ex.wantVars()); rr == "sat" {
+					vm = &valModel{item: t.item, model: m, reach: res.Reached, trail: res.Trail}
+				}
+			}
+		}
+		for _, n := range nt {
+			local = append(local, task{h: t.h, item: t.item, trail: n})
+		}
+		r.mu.Lock()
+		st := r.stats[t.h]
+		st.Paths++
+		if res.Aborted != "" {
+			st.Aborted++
+		}
+		st.Obl += res.Obligations
+		st.Dis += res.Discharged
+		st.Syn += res.Syntactic
+		st.Steps += res.Steps
+		for _, l := range res.Reached {
+			st.Reach[l]++
+		}
+		for _, u := range res.Undischarged {
+			if len(st.Undis) < 50 {
+				st.Undis = append(st.Undis, h.Name+" {"+it.String()+"}: "+u)
+			}
+		}
+		if vm != nil {
+			st.valModels = append(st.valModels, *vm)
+		}
+		if len(st.Samples) < 3 && res.Aborted == "" && (res.Obligations > 0) {
+			st.Samples = append(st.Samples, map[string]interface{}{
+				"harness": h.Name, "item": it.String(), "decisions": res.Decisions, "reached": res.Reached,
+				"obligations": res.Obligations, "discharged": res.Discharged, "steps": res.Steps, "one_query": res.SampleQuery,
+			})
+		}
+		for _, vr := range vrecs {
+			if strings.HasPrefix(vr.Status, "known:") {
+				k := strings.TrimPrefix(vr.Status, "known:")
+				r.matched[k]++
+				if r.matchedSample[k] == "" {
+					r.matchedSample[k] = fmt.Sprintf("%s {%s} %s", h.Name, it.String(), vr.V.Label)
+				}
+				if r.matched[k] <= 3 {
+					r.viols = append(r.viols, vr)
+				}
+			} else {
+				r.unmatched++
+				if r.unmatched <= 12 {
+					r.viols = append(r.viols, vr)
+				}
+				if r.unmatched >= 40 {
+					r.stop = true
+				}
+			}
+		}
+		// share work
+		r.out += len(nt) - 1
+		if len(local) > 2 && len(r.queue) < r.workers {
+			half := len(local) / 2
+			r.queue = append(r.queue, local[:half]...)
+			local = append([]task(nil), local[half:]...)
+		}
+		if r.out == 0 || r.stop || len(r.queue) > 0 {
+			r.cond.Broadcast()
+		}
+		r.mu.Unlock()
+	}
+	r.mu.Lock()
+	r.sstats.Queries += sol.Stats.Queries
+	r.sstats.Sat += sol.Stats.Sat
+	r.sstats.Unsat += sol.Stats.Unsat
+	r.sstats.Unknown += sol.Stats.Unknown
+	r.sstats.Fallbacks += sol.Stats.Fallbacks
+	r.sstats.Errors += sol.Stats.Errors
+	r.sstats.Time += sol.Stats.Time
+	for fn := range ex.fnSeen {
+		if fn.Pkg != nil && strings.HasPrefix(fn.Pkg.Pkg.Path(), qeepMod) && !strings.Contains(fn.Pkg.Pkg.Path(), "/zz") {
+			r.fnSeen[fn.String()+" ("+ex.pos2s(fn.Pos())+")"] = true
+		}
+	}
+	for k, v := range ex.rangesAll {
+		r.ranges[k] = v
+	}
+	r.axioms += ex.axioms
+	r.mu.Unlock()
+}
+
+/* ---------------- known findings ---------------- */
+
+type kfLine struct {
+	kind, prop, key, text string
+}
+
+func readKF() []kfLine {
+	data, err := os.ReadFile(filepath.Join(verifDir(), "KNOWN_FINDINGS.txt"))
+	if err != nil {
+		return nil
+	}
+	var out []kfLine
+	re := regexp.MustCompile(`^(finding|fixed):\s+property=(\S+)\s+(?:key=(\S+)\s+)?(.*)$`)
+	for _, l := range strings.Split(string(data), "\n") {
+		m := re.FindStringSubmatch(strings.TrimSpace(l))
+		if m != nil {
+			out = append(out, kfLine{m[1], m[2], m[3], m[4]})
+		}
+	}
+	return out
+}
+
+func knownKeys(id string) []string {
+	var ks []string
+	for _, l := range readKF() {
+		if l.kind == "finding" && l.prop == id && l.key != "" {
+			ks = append(ks, l.key)
+		}
+	}
+	return ks
+}
+
+func knownText(id, key string) string {
+	for _, l := range readKF() {
+		if l.kind == "finding" && l.prop == id && l.key == key {
+			return l.text
+		}
+	}
+	return ""
+}
+
+/* ---------------- native side ---------------- */
+
+type native struct {
+	P    *Program
+	r    *runner
+	dir  string
+	bins map[string]string // pkg -> test binary
+	err  map[string]error
+	runs int
+}
+
+func newNative(P *Program, r *runner) *native {
+	return &native{P: P, r: r, bins: map[string]string{}, err: map[string]error{}}
+}
+
+func (n *native) cleanup() {
+	if n.dir != "" {
+		os.RemoveAll(n.dir)
+	}
+}
+
+var reHarnessFn = regexp.MustCompile(`(?m)^func (H_[A-Za-z0-9_]+)\(\)`)
+
+func (n *native) binary(pkg string) (string, error) {
+	if b, ok := n.bins[pkg]; ok {
+		return b, n.err[pkg]
+	}
+	if n.dir == "" {
+		d, err := os.MkdirTemp("", "qsym-native-")
+		if err != nil {
+			return "", err
+		}
+		n.dir = d
+	}
+	repl := map[string]string{}
+	hroot := filepath.Join(verifDir(), "harness", "overlay")
+	var fns []string
+	for vpath := range n.P.overlay {
+		rel, _ := filepath.Rel(n.P.repo, vpath)
+		repl[vpath] = filepath.Join(hroot, rel)
+		if filepath.Dir(rel) == pkg {
+			for _, m := range reHarnessFn.FindAllStringSubmatch(string(n.P.overlay[vpath]), -1) {
+				fns = append(fns, m[1])
+			}
+		}
+	}
+	sort.Strings(fns)
+	pkgName := filepath.Base(pkg)
+	if sp := n.P.pkgs[qeepMod+"/"+pkg]; sp != nil {
+		pkgName = sp.Pkg.Name()
+	}
+	var sb strings.Builder
+	fmt.Fprintf(&sb, "package %s\n\nimport (\n\t\"fmt\"\n\t\"testing\"\n\tvrt \"%s/zzvrt\"\n)\n\n", pkgName, qeepMod)
+	sb.WriteString("var zzRegistry = map[string]func(){\n")
+	for _, f := range fns {
+		fmt.Fprintf(&sb, "\t%q: %s,\n", f, f)
+	}
+	sb.WriteString("}\n\n")
+	sb.WriteString(`func zzRun(f func()) (outcome string) {
+	defer func() {
+		if r := recover(); r != nil {
+			if _, ok := r.(vrt.AssumeFailed); ok {
+				outcome = "assume-failed"
+				return
+			}
+			outcome = fmt.Sprintf("panic: %v", r)
+		}
+	}()
+	f()
+	if len(vrt.Failures) > 0 {
+		return "fail"
+	}
+	return "pass"
+}
+
+func TestVRT(t *testing.T) {
+	vrt.Load()
+	f := zzRegistry[vrt.R.Harness]
+	if f == nil {
+		fmt.Println("VRT-RESULT nofunc")
+		return
+	}
+	out := zzRun(f)
+	fmt.Printf("VRT-RESULT %s\n", out)
+	for _, s := range vrt.Failures {
+		fmt.Printf("VRT-FAIL %s\n", s)
+	}
+	for _, s := range vrt.Reached {
+		fmt.Printf("VRT-REACH %s\n", s)
+	}
+	for _, s := range vrt.Notes {
+		fmt.Printf("VRT-NOTE %s\n", s)
+	}
+}
+`)
+	testFile := filepath.Join(n.dir, strings.ReplaceAll(pkg, "/", "_")+"_zz_native_test.go")
+	os.WriteFile(testFile, []byte(sb.String()), 0o644)
+	repl[filepath.Join(n.P.repo, pkg, "zz_native_test.go")] = testFile
+	ovb, _ := json.Marshal(map[string]interface{}{"Replace": repl})
+	ovFile := filepath.Join(n.dir, strings.ReplaceAll(pkg, "/", "_")+"_overlay.json")
+	os.WriteFile(ovFile, ovb, 0o644)
+	bin := filepath.Join(n.dir, strings.ReplaceAll(pkg, "/", "_")+".test")
+	cmd := exec.Command("go", "test", "-c", "-vet=off", "-o", bin, "-overlay", ovFile, "./"+pkg+"/")
+	cmd.Dir = n.P.repo
+	cmd.Env = append(os.Environ(), "GOFLAGS=-mod=mod", "GOPROXY=off", "GOSUMDB=off", "GOTOOLCHAIN=local")
+	out, err := cmd.CombinedOutput()
+	if err != nil {
+		err = fmt.Errorf("native build failed: %v\n%s", err, out)
+		fmt.Fprintln(os.Stderr, err)
+	}
+	n.bins[pkg] = bin
+	n.err[pkg] = err
+	return bin, err
+}
+
+type replayJSON struct {
+	Harness string             `json:"harness"`
+	Pkg     string             `json:"pkg"`
+	Check   string             `json:"check"`
+	Params  map[string]int64   `json:"params"`
+	SParams map[string]string  `json:"sparams"`
+	Ints    map[string]int64   `json:"ints"`
+	Bools   map[string]bool    `json:"bools"`
+	Floats  map[string]float64 `json:"floats"`
+	Exact   map[string]string  `json:"exact_rationals,omitempty"`
+	Known   []string           `json:"known"`
+	Seed    int                `json:"seed"`
+	Label   string             `json:"failing_label,omitempty"`
+	Kind    string             `json:"kind,omitempty"`
+	Pos     string             `json:"pos,omitempty"`
+	Detail  string             `json:"detail,omitempty"`
+	Trail   []int              `json:"decision_trail,omitempty"`
+	Cmd     string             `json:"replay_cmd,omitempty"`
+}
+
+func modelToReplay(h Harness, it Item, model map[string]ModelVal, withFloats bool) replayJSON {
+	rj := replayJSON{Harness: h.Func, Pkg: h.Pkg, Params: it.P, SParams: it.S, Ints: map[string]int64{}, Bools: map[string]bool{},
+		Floats: map[string]float64{}, Exact: map[string]string{}}
+	for name, mv := range model {
+		if mv.S == "true" || mv.S == "false" {
+			rj.Bools[name] = mv.Bool
+			continue
+		}
+		if mv.Rat == nil {
+			continue
+		}
+		isFloat := strings.Contains(mv.S, ".") || strings.Contains(mv.S, "/")
+		if !isFloat && mv.Rat.IsInt() {
+			rj.Ints[name] = mv.Rat.Num().Int64()
+			continue
+		}
+		if withFloats {
+			f, _ := mv.Rat.Float64()
+			rj.Floats[name] = f
+			rj.Exact[name] = mv.Rat.RatString()
+		}
+	}
+	return rj
+}
+
+type natResult struct {
+	outcome string
+	fails   []string
+	reach   []string
+	raw     string
+}
+
+func (n *native) run(pkg string, rj replayJSON, file string, timeout time.Duration) natResult {
+	bin, err := n.binary(pkg)
+	if err != nil {
+		return natResult{outcome: "nobuild"}
+	}
+	if file == "" {
+		file = filepath.Join(n.dir, fmt.Sprintf("r%d.json", n.runs))
+		data, _ := json.MarshalIndent(rj, "", " ")
+		os.WriteFile(file, data, 0o644)
+	}
+	n.runs++
+	cmd := exec.Command(bin, "-test.run", "^TestVRT$", "-test.count=1")
+	cmd.Dir = n.dir
+	cmd.Env = append(os.Environ(), "VRT_REPLAY="+file)
+	done := make(chan []byte, 1)
+	go func() {
+		out, _ := cmd.CombinedOutput()
+		done <- out
+	}()
+	var out []byte
+	select {
+	case out = <-done:
+	case <-time.After(timeout):
+		if cmd.Process != nil {
+			cmd.Process.Kill()
+		}
+		return natResult{outcome: "timeout"}
+	}
+	res := natResult{raw: string(out), outcome: "crash"}
+	for _, l := range strings.Split(string(out), "\n") {
+		switch {
+		case strings.HasPrefix(l, "VRT-RESULT "):
+			res.outcome = strings.TrimPrefix(l, "VRT-RESULT ")
+		case strings.HasPrefix(l, "VRT-FAIL "):
+			res.fails = append(res.fails, strings.TrimPrefix(l, "VRT-FAIL "))
+		case strings.HasPrefix(l, "VRT-REACH "):
+			res.reach = append(res.reach, strings.TrimPrefix(l, "VRT-REACH "))
+		}
+	}
+	return res
+}
+
+func natFailed(o string) bool {
+	return o == "fail" || o == "timeout" || o == "crash" || strings.HasPrefix(o, "panic")
+}
+
+// validate replays sampled path models natively: the native run must pass and reach the same labels.
+func (r *runner) validate(n *native) (validated, mismatches int) {
+	if os.Getenv("QSYM_NOVALIDATE") != "" {
+		return 0, 0
+	}
+	for hi, h := range r.chk.Harnesses {
+		for _, vm := range r.stats[hi].valModels {
+			rj := modelToReplay(h, r.items[hi][vm.item], vm.model, true)
+			res := n.run(h.Pkg, rj, "", 60*time.Second)
+			if res.outcome == "nobuild" {
+				return validated, mismatches
+			}
+			if res.outcome == "pass" && strings.Join(res.reach, ",") == strings.Join(vm.reach, ",") {
+				validated++
+			} else if res.outcome == "assume-failed" {
+				// rounding moved the input across an assumption boundary: not comparable
+			} else {
+				mismatches++
+				if mismatches <= 5 {
+					fmt.Printf("VALIDATION-MISMATCH %s {%s}: native=%s reach=%v symbolic reach=%v fails=%v\n", h.Name, r.items[hi][vm.item], res.outcome, res.reach, vm.reach, res.fails)
+				}
+			}
+		}
+	}
+	return
+}
+
+// confirm replays every unattributed violation natively; returns the number confirmed.
+func (r *runner) confirm(n *native) int {
+	confirmed := 0
+	seen := map[string]bool{}
+	for i := range r.viols {
+		v := &r.viols[i]
+		if v.Status != "" {
+			continue
+		}
+		h := r.chk.Harnesses[v.H]
+		it := r.items[v.H][v.Item]
+		model := map[string]ModelVal{}
+		for k, s := range v.V.Model {
+			sx, _ := parseSexp(s)
+			model[k] = evalSexp(sx)
+		}
+		base := modelToReplay(h, it, model, true)
+		base.Check, base.Label, base.Kind, base.Pos, base.Detail, base.Trail = r.chk.ID, v.V.Label, v.V.Kind, v.V.Pos, v.V.Detail, v.V.Trail
+		try := func(rj replayJSON) bool {
+			res := n.run(h.Pkg, rj, "", 120*time.Second)
+			return natFailed(res.outcome)
+		}
+		ok := try(base)
+		final := base
+		if !ok {
+			// generic-position floats, discrete part unchanged
+			for s := 1; s <= 32 && !ok; s++ {
+				g := modelToReplay(h, it, model, false)
+				g.Check, g.Label, g.Kind, g.Pos, g.Detail, g.Trail = r.chk.ID, v.V.Label, v.V.Kind, v.V.Pos, v.V.Detail, v.V.Trail
+				g.Seed = int(r.seed)*100 + s
+				if try(g) {
+					ok, final = true, g
+				}
+			}
+		}
+		if !ok {
+			v.Status = "unconfirmed"
+			continue
+		}
+		v.Status = "confirmed"
+		sig := h.Name + "|" + v.V.Label + "|" + v.V.Kind
+		os.MkdirAll(filepath.Join(verifDir(), "replays"), 0o755)
+		path := filepath.Join(verifDir(), "replays", fmt.Sprintf("%s-%d.json", r.chk.ID, confirmed))
+		final.Cmd = fmt.Sprintf("./check %s --replay %s", r.chk.ID, path)
+		data, _ := json.MarshalIndent(final, "", " ")
+		os.WriteFile(path, data, 0o644)
+		v.Replay = path
+		confirmed++
+		if seen[sig] {
+			// keep the count but do not print duplicates of one failing assertion many times
+		}
+		seen[sig] = true
+	}
+	return confirmed
+}
+
+func replayCmd(id, file string) int {
+	data, err := os.ReadFile(file)
+	if err != nil {
+		fmt.Fprintln(os.Stderr, err)
+		return 2
+	}
+	var rj replayJSON
+	if err := json.Unmarshal(data, &rj); err != nil {
+		fmt.Fprintln(os.Stderr, err)
+		return 2
+	}
+	P, err := LoadProgram(envOr("QSYM_REPO", "/repo"), filepath.Join(verifDir(), "harness"))
+	if err != nil {
+		fmt.Fprintln(os.Stderr, "load:", err)
+		return 2
+	}
+	n := newNative(P, nil)
+	defer n.cleanup()
+	abs, _ := filepath.Abs(file)
+	res := n.run(rj.Pkg, rj, abs, 120*time.Second)
+	fmt.Printf("replay %s: native outcome=%s\n", file, res.outcome)
+	for _, f := range res.fails {
+		fmt.Println("  FAIL", f)
+	}
+	if natFailed(res.outcome) {
+		fmt.Printf("VIOLATION property=%s replay=%s\n", id, file)
+		return 1
+	}
+	return 0
+}
+
+/* ---------------- evidence ---------------- */
+
+func (r *runner) writeEvidence(wall float64, validated, mismatches, nviol int, broken []string) {
+	paths, obl, dis, syn, aborted := 0, 0, 0, 0, 0
+	var steps int64
+	var samples []interface{}
+	var undis []string
+	reach := map[string]int{}
+	perH := []map[string]interface{}{}
+	for hi, s := range r.stats {
+		h := r.chk.Harnesses[hi]
+		paths += s.Paths
+		obl += s.Obl
+		dis += s.Dis
+		syn += s.Syn
+		aborted += s.Aborted
+		steps += s.Steps
+		for _, x := range s.Samples {
+			if len(samples) < 12 {
+				samples = append(samples, x)
+			}
+		}
+		undis = append(undis, s.Undis...)
+		for k, v := range s.Reach {
+			reach[h.Name+":"+k] = v
+		}
+		perH = append(perH, map[string]interface{}{"harness": h.Name, "what": h.What, "work_items": s.Items, "paths": s.Paths,
+			"obligations": s.Obl, "discharged": s.Dis, "int_encoding": map[bool]string{true: "BitVec64", false: "Int"}[h.BV]})
+	}
+	var fns []string
+	for f := range r.fnSeen {
+		fns = append(fns, f)
+	}
+	sort.Strings(fns)
+	bounds := map[string]interface{}{}
+	for k, v := range r.ranges {
+		bounds[k] = fmt.Sprintf("[%d,%d]", v[0], v[1])
+	}
+	var vl []interface{}
+	for _, v := range r.viols {
+		vl = append(vl, map[string]interface{}{"harness": r.chk.Harnesses[v.H].Name, "item": r.items[v.H][v.Item].String(),
+			"kind": v.V.Kind, "label": v.V.Label, "pos": v.V.Pos, "status": v.Status, "replay": v.Replay, "model": v.V.Model})
+	}
+	if len(samples) == 0 {
+		samples = append(samples, "no path completed")
+	}
+	cov := map[string]interface{}{
+		"states":                        paths,
+		"transitions":                   steps,
+		"traces_validated_against_impl": validated,
+		"samples":                       samples,
+		"obligations":                   obl,
+		"discharged":                    dis,
+		"discharged_syntactically":      syn,
+		"undischarged":                  undis,
+		"paths_ended_by_assumption":     aborted,
+		"unconfirmed_candidates":        r.countStatus("unconfirmed"),
+		"validation_mismatches":         mismatches,
+		"known_findings_matched":        r.matched,
+		"functions_encoded":             fns,
+		"bounds":                        bounds,
+		"outside_bounds":                r.chk.Outside,
+		"harnesses":                     perH,
+		"reach_labels":                  reach,
+		"axioms_instantiated":           r.axioms,
+		"solver_queries":                r.sstats.Queries,
+		"solver_sat":                    r.sstats.Sat,
+		"solver_unsat":                  r.sstats.Unsat,
+		"solver_unknown":                r.sstats.Unknown,
+		"solver_fallbacks":              r.sstats.Fallbacks,
+		"solver_time_s":                 r.sstats.Time.Seconds(),
+		"solver_versions":               "z3 4.8.12 (primary, persistent -in, push/pop); z3 5.1.0 one-shot fallback on unknown",
+		"violations_detail":             vl,
+		"budget_exhausted":              r.timedOut,
+		"broken":                        broken,
+		"explanation":                   r.chk.Explanation,
+		"exhaustive":                    false,
+	}
+	ev := map[string]interface{}{
+		"property_id": r.chk.ID,
+		"tier":        r.tier,
+		"seed":        r.seed,
+		"level":       r.chk.Level,
+		"coverage":    cov,
+		"assumptions": r.chk.Assumptions,
+		"wall_s":      wall,
+		"violations":  nviol,
+	}
+	os.MkdirAll(filepath.Join(verifDir(), "evidence"), 0o755)
+	data, _ := json.MarshalIndent(ev, "", " ")
+	os.WriteFile(filepath.Join(verifDir(), "evidence", r.chk.ID+".json"), data, 0o644)
+}
+
+var _ = big.NewRat
